@@ -15,11 +15,11 @@ CONSTANTS
   MaxMsgs2 = 1
   MaxOps = 30
   MaxTampers = 0
-  MaxBudgetOps = 3
-  MaxDisc = 1
+  MaxBudgetOps = 2
+  MaxDisc = 0
   CutReads = FALSE
   CutHandshake = TRUE
-  EmitEvery = 8
+  EmitEvery = 4
 CONSTRAINT Bound
 VIEW View
 INVARIANT ExactDelivery
